@@ -14,6 +14,7 @@ contract(D + 'stack_training_data', props=['C10', 'C04', 'C07'],
                   # columns [jN,(j+1)N) of row i are row i+j of the input
                   ("cells", _CELL % ("data.shape[0] - window_size + 1", "window_size", "result")),
                   "fresh(result)"],
+         ghost={'mode': 'lambda'},
          loops={1: dict(inv=[_CELL % ("i", "window_size", "stacked_training_data")],
                         modifies=["stacked_training_data"]),
                 2: dict(inv=[_CELL % ("i", "window_size", "stacked_training_data"),
